@@ -371,6 +371,31 @@ pub fn c19_configs(tier: Tier) -> Vec<(Cfg, usize)> {
     c.root = pre_logs(3, vec![]);
     c.msgs = vec!["q".repeat(4)];
     v.push((c, if tier == Tier::Quick { 4 } else { 5 }));
+    // rate-limited target with the limiter exhausted on a short terminal: removing a bar makes room for an
+    // omitted one at once; a finished bar whose text changes under the limiter is reaped by its real rows
+    let mut c = Cfg::base("c19-hz1-remove", 6, 2);
+    c.hz = Some(1);
+    c.height_clauses = true;
+    c.max_bars = 3;
+    c.inserts = false;
+    c.suspend = false;
+    c.bar_println = false;
+    c.clear_only = true;
+    c.root = pre_logs(1, vec![Op::Add, Op::Add, Op::Add, Op::Tick(0), Op::Tick(1), Op::Tick(2), Op::Burn(0)]);
+    c.limiter_ops = true;
+    c.msgs = vec!["q".into()];
+    v.push((c, if tier == Tier::Quick { 3 } else { 4 }));
+    let mut c = Cfg::base("c19-hz1-finished-wrapped", 6, 14);
+    c.hz = Some(1);
+    c.max_bars = 2;
+    c.inserts = false;
+    c.suspend = false;
+    c.bar_println = false;
+    c.remove = false;
+    c.root = pre_logs(1, vec![Op::Add, Op::Add, Op::Tick(0), Op::Tick(1), Op::Burn(1), Op::Finish(0)]);
+    c.limiter_ops = true;
+    c.msgs = vec!["q".into(), "q".repeat(7)];
+    v.push((c, if tier == Tier::Quick { 4 } else { 5 }));
     // double-width characters at odd widths: a character that does not fit the last column wraps early
     for (w, h) in [(3usize, 3usize), (5, 4)] {
         let mut c = Cfg::base("c19-wide-chars", w, h);
